@@ -386,6 +386,8 @@ func f4(w *World, r *Report) {
 				key := "BlockContext.feeSum:writer:" + name
 				if why, ok := allowed[name]; ok {
 					r.OK("F-4", key, "allowed writer: "+why, site(w, in))
+				} else if via, ok := w.onlyReachedFrom(fn, allowed, 0, map[*ssa.Function]bool{}); ok && (fn.Object() == nil || !fn.Object().Exported()) {
+					r.OK("F-4", key, "helper of an allowed writer: every call of it comes from "+via, site(w, in))
 				} else {
 					r.Violate("F-4", key, "the block fee sum is written outside NewBlockContext/AddFee/UnmarshalJSON", nil, site(w, in))
 				}
